@@ -131,6 +131,13 @@ fn registry() -> Vec<CheckDef>
 			level_text: "exhaustive enumeration of failing and linting inputs from the bounded spaces of the other properties (type and mutability matrices, label / variable / placement bodies, token sequences, single-fault neighbourhoods, cyclic declaration graphs, corpus) plus marker programs with a known offender and multi-file programs, each in six token-preserving layouts; every diagnostic checked against the catalogue, the file, the line, the reference lexer's lexeme boundaries and the known offender, rendered in four configurations, compiled twice in one process and once more in a fresh process; every splice schedule of a hash-ordered import set",
 		},
 		CheckDef {
+			id: "C18",
+			drive: checks::c18::drive,
+			work: checks::c18::work,
+			case_timeout_ms: 60_000,
+			level_text: "complete enumeration of the finite configuration product subcommand x input class x path form x verbosity x colour x arrows x out-dir x wasm and of the backend table flag x environment x config x backend answer x arguments, each run as a process of the real binary with recording stub backends (and end to end with lli and clang), compared with a reference model of the command line and with the library API's diagnostics and IR",
+		},
+		CheckDef {
 			id: "C09",
 			drive: checks::c09::drive,
 			work: checks::c09::work,
